@@ -137,7 +137,12 @@ impl Trace {
 
 /// Execute `ops`; `visible0` bytes of `file` exist at the start.
 pub fn run_ops(file: &[u8], visible0: usize, ops: &[Op], cfg: &Config) -> Trace {
-    let rd = PieceReader::new(file.to_vec(), vec![]);
+    run_ops_cuts(file, visible0, ops, cfg, &[])
+}
+
+/// the same with the input handed out in pieces that end at the given cut offsets
+pub fn run_ops_cuts(file: &[u8], visible0: usize, ops: &[Op], cfg: &Config, cuts: &[usize]) -> Trace {
+    let rd = PieceReader::new(file.to_vec(), cuts.to_vec());
     let visible = rd.visible.clone();
     visible.store(visible0.min(file.len()), Ordering::SeqCst);
     let mut dec = png::Decoder::new_with_options(rd, decode_options(&cfg.opts));
